@@ -261,6 +261,19 @@ func (x *Exec) callByContract(st *State, fr *Frame, callee *ssa.Function, fc *Fu
 			}
 		}
 	}
+	// ... and assertions about calls made by a contract-less helper inlined into it: `at helper.callee#n`
+	if x.fc != nil && fr.Fn != x.fn && len(st.frames) == 2 && st.frames[0].Fn == x.fn {
+		via := shortCallee(x.P.FuncName(fr.Fn))
+		for _, a := range x.fc.Asserts {
+			if a.At == fmt.Sprintf("%s.%s#%d", via, short, ord) {
+				cenv := x.envFor(st, x.entry, st.frames[0])
+				for k, v := range env.vars {
+					cenv.vars["$"+k] = v
+				}
+				x.oblige(st, "assert@"+via+"."+short+fmt.Sprintf("#%d", ord), a.Label, a.Props, x.evalBool(cenv, a.Expr), where, a.Src)
+			}
+		}
+	}
 	if fc.NoReturn {
 		st.dead = true
 		return
